@@ -1300,6 +1300,8 @@ func runCase(t *testing.T, part string, v engine.Vec) engine.Result {
 			res = roCase(v)
 		case "pkce-honoured":
 			res = pkceCase(v)
+		case "issuer-history":
+			res = histCase(v)
 		default:
 			panic("part " + part)
 		}
@@ -1455,7 +1457,7 @@ func TestCheck(t *testing.T) {
 		return
 	}
 	c := engine.Start(t, "C19")
-	c.SetRule("E1: every case constructs a provider in an isolated worker process and probes it using only its discovery document; groups {flags,capabilities,router,probe} and {endpoint options,LegacyServer endpoints,issuer strategy,Host,router,probe} are full products crossed with every <=k deviations of the remaining dimensions; part issuer-flows: {flow, JWT kinds, one-step history, issuer strategy, Host, router} full product and {flow, kinds, history, router} x every <=k deviations of the rest (client authentication method, flags, capabilities, endpoints); parts request-object-shapes ({client_id, response_type, scope, redirect_uri, state, nonce} each carried outside / both / inside / differing / nowhere as a full product x router; sending and signing variants and issuer strategies against every <=k deviations of the rest) and pkce-honoured (client kind x challenge x verifier x carrier x GET/POST x request-object support x router full product; client x challenge x verifier x router x every <=k deviations of the rest); three full grids for issuer strings, dynamic issuer paths and client.Discover; distinct = (part, oracle rule, observed outcome class)")
+	c.SetRule("E1: every case constructs a provider in an isolated worker process and probes it using only its discovery document; groups {flags,capabilities,router,probe} and {endpoint options,LegacyServer endpoints,issuer strategy,Host,router,probe} are full products crossed with every <=k deviations of the remaining dimensions; part issuer-flows: {flow, JWT kinds, one-step history, issuer strategy, Host, router} full product and {flow, kinds, history, router} x every <=k deviations of the rest (client authentication method, flags, capabilities, endpoints); parts request-object-shapes ({client_id, response_type, scope, redirect_uri, state, nonce} each carried outside / both / inside / differing / nowhere as a full product x router; sending and signing variants and issuer strategies against every <=k deviations of the rest) and pkce-honoured (client kind x challenge x verifier x carrier x GET/POST x request-object support x router full product; client x challenge x verifier x router x every <=k deviations of the rest); part issuer-history ({issuer strategy, router, Host and forwarding headers of an earlier request A, Host and forwarding headers of the judged request B} full product after a discovery for A; {history of 0-2 requests, token flow of B, strategy, router} full product; {history, strategy, router} x every <=k deviations of the rest; B judged alone and against a fresh provider); three full grids for issuer strings, dynamic issuer paths and client.Discover; distinct = (part, oracle rule, observed outcome class)")
 	c.Assume("refstore is a correct storage; clients web/webjwt/pub/jwt/svc are registered for the grants they use",
 		"an advertised URL is addressed relative to the issuer (the integrator mounts the handler below the issuer's path); an absolute override is addressed by its own path",
 		"the login UI returns to <authorization_endpoint>/callback as op.AuthCallbackURL / LegacyServer.AuthCallbackURL document",
@@ -1465,6 +1467,7 @@ func TestCheck(t *testing.T) {
 		"issuer-flows: every flow must issue its JWT kinds under the full configuration with client_secret_basic; refused under a reduced configuration or with another client authentication method: Either (recorded as flow-unavailable)",
 		"request objects: only shapes every implementation of OIDC Core 6.1 must take are judged (client_id outside and inside, response_type outside, scope with openid outside, a redirect_uri somewhere, advertised signing algorithm, confidential client); every other shape is recorded (Either)",
 		"PKCE: only challenges of methods listed in code_challenge_methods_supported are judged; the matching verifier must succeed only for clients whose authentication method is listed in token_endpoint_auth_methods_supported",
+		"issuer-history: the issuer of a request is the value the configured strategy documents for it (Forwarded host, then the custom headers in their configured order, then the request Host; X-Forwarded-Host is read by no strategy); a fresh provider of the same configuration is the reference for the document of the last request; requests of the history address the endpoints by the paths that reference document names",
 		"package defaults are restored from a pristine copy before and after every construction; one provider per process at a time (C20's shared DefaultEndpoints pointer cannot leak between cases)")
 	if msg := pristineProblem(); msg != "" {
 		c.Internal(msg)
@@ -1536,6 +1539,23 @@ func TestCheck(t *testing.T) {
 			Ks:        engine.Pick(c, []int{0, 1}, []int{1, 2}),
 			Skip:      pkceSkip,
 			NewWorker: worker("pkce-honoured"),
+		})
+	}
+	// one long-lived provider that serves several issuers: request A = (Host, forwarding headers) in a
+	// history of 0-2 requests, then request B judged alone and against a fresh provider. Host and header
+	// of A and of B are four independent dimensions (full product with strategy, router and history).
+	if only == "" || only == "issuer-history" {
+		c.RunE1(engine.E1{
+			Part:  "issuer-history",
+			Space: histSpace,
+			Groups: [][]string{
+				{"strategy", "router", "host1", "fwd1", "host2", "fwd2"}, // every pair of requests after the default history (discovery for A)
+				{"strategy", "router", "history", "flow"},
+				{"strategy", "router", "history"}, // every history x every single deviation of the pair, the flow and the endpoints
+			},
+			Ks:        engine.Pick(c, []int{0, 0, 1}, []int{1, 1, 2}), // thorough: every pair x every history
+			Skip:      histSkip,
+			NewWorker: worker("issuer-history"),
 		})
 	}
 	ri, li, ei, pi := provSpace.Idx("router"), provSpace.Idx("legacyEP"), provSpace.Idx("eps"), provSpace.Idx("probe")
